@@ -15,7 +15,7 @@ CLAIM = ('Decided per explored history: a Logger is built for each write mode (D
          'logged after shutdown() in asynchronous mode is accepted and lost (C04_async_dead_write_lost). ')
 THEOREMS = ["C04_stop_durable", "C04_flush_durable_async", "C04_stop_durable_async", "C04_flush_durable_sync", "C04_async_dead_write_lost"]
 TRUSTED = ["modelled, not verified: BufWriter::flush, the async writer thread joins on shutdown, stdout/stderr buffering of the std writers"]
-ASSUMPTIONS = ["after shutdown() no further records are logged in the generated histories",
+ASSUMPTIONS = ["in asynchronous mode no records are logged after shutdown() (the writer thread has ended; C04_async_dead_write_lost)",
                "in asynchronous mode flush() only sends a request: no checkpoint is placed after it"]
 RULE = ("histories over log / flush / shutdown / clone / drop-handle-i with 0-12 records of 2-40 bytes, buffer capacities below and above "
         "the total output, checkpoints (snapshot immediately after the call returns) after flush (sync modes), shutdown and the drop "
@@ -50,6 +50,13 @@ def gen(rng, tier):
                 i = rng.choice(alive)
                 handles[i] = False
                 ops.append("D:%d" % i)
+    if sync and rng.random() < 0.3:
+        # in the synchronous modes logging goes on after shutdown(): a later shutdown() or the drop of the last handle must
+        # write out what was accepted in between
+        ops += ["H", "SN"]
+        for _ in range(rng.randint(1, 3)):
+            ops.append("L:" + gl.hx("%c%d-%s" % (65 + n % 26, n, "x" * rng.choice([0, 3, 30]))))
+            n += 1
     if rng.random() < 0.5:
         ops += ["H", "SN"]
     else:
